@@ -460,7 +460,7 @@ func (propC09) Rule() string {
 }
 func (propC09) Runs(tier string) int {
 	if tier == "thorough" {
-		return 120000
+		return 500000
 	}
 	return 12000
 }
@@ -922,7 +922,7 @@ func checkRaceCase(c *Case, ri *RunInfo) (*Violation, *RunInfo) {
 func (propC09) Post(tier string, base uint64) ([]workerViolation, map[string]int) {
 	rounds := 25
 	if tier == "thorough" {
-		rounds = 400
+		rounds = 1500
 	}
 	counters := map[string]int{}
 	if os.Getenv("VERIF_NO_RACE_LEG") != "" { // diagnostics only: measure what the simulated legs catch on their own
